@@ -256,10 +256,10 @@ theorem addAt_length (t : String) (w : Value) : ∀ (k : Nat) (E : List Frame), 
 theorem captureScope_congr (E E' : List Frame) : ∀ (vars : List String) (sc : Frame),
     (∀ y ∈ vars, envGet E' y = envGet E y) →
     vars.foldl (fun sc y => match envGet E' y with
-        | some v => if isBuiltinIdent y then sc else insertAL y v sc
+        | some v => insertAL y v sc
         | none => sc) sc =
     vars.foldl (fun sc y => match envGet E y with
-        | some v => if isBuiltinIdent y then sc else insertAL y v sc
+        | some v => insertAL y v sc
         | none => sc) sc
   | [], _, _ => rfl
   | y :: vars, sc, h => by
